@@ -25,23 +25,67 @@ func bsum8(data []byte, lo, hi int) uint8 {
 
 // ---- id_string.go: the three ID-string decoders
 
+// specBCDPlusChar is character k of a BCD-plus string whose byte k/2 is v:
+// even positions are the high nibble. Digits map to '0'..'9', then
+// space, dash, period, colon, comma, underscore (IPMI v2.0 section 43.15).
+func specBCDPlusChar(v uint8, k int) uint8 {
+	nib := v & 0xf
+	if k%2 == 0 {
+		nib = v >> 4
+	}
+	if nib < 10 {
+		return '0' + nib
+	}
+	switch nib {
+	case 10:
+		return ' '
+	case 11:
+		return '-'
+	case 12:
+		return '.'
+	case 13:
+		return ':'
+	case 14:
+		return ','
+	}
+	return '_'
+}
+
+// specPacked6Char is character k of a packed 6-bit ASCII string: the six bits
+// starting at bit 6k of the little-endian bit stream b, plus 0x20.
+func specPacked6Char(b []byte, k int) uint8 {
+	bit := 6 * k
+	at := bit / 8
+	sh := uint(bit % 8)
+	v := b[at] >> sh
+	if sh > 2 {
+		v |= b[at+1] << (8 - sh)
+	}
+	return v&0x3f + 0x20
+}
+
 //@ func decode8BitAsciiLatin1
 //@ props C20 C05 C07
 //@ assigns nothing
 //@ requires [str.c] 0 <= c && c <= 31
-//@ ensures [C20.latin1-consumed] result2 == nil ==> result1 == c && c <= len(b) && len(result0) == c
+//@ ensures [C20.latin1-accept] (result2 == nil) == (len(b) >= 2 && len(b) >= c)
+//@ ensures [C20.latin1-consumed] result2 == nil ==> result1 == c && len(result0) == c
 //@ ensures [C20.latin1-bytes] result2 == nil ==> forall(qk, 0, c, result0[qk] == b[qk])
 
 //@ func decodeBCDPlus
 //@ props C20 C05 C07
 //@ assigns nothing
 //@ requires [str.c] 0 <= c && c <= 31
-//@ ensures [C20.bcdplus-consumed] result2 == nil ==> result1 == (c+1)/2 && result1 <= len(b)
-//@ ensures [C20.bcdplus-reject] len(b) < (c+1)/2 ==> result2 != nil
+//@ invariant 0 [C20.bcdplus-inv] 0 <= i && i <= c && len(runes) == c && forall(qk, 0, i, runes[qk] == rune(specBCDPlusChar(b[qk/2], qk)))
+//@ ensures [C20.bcdplus-accept] (result2 == nil) == (len(b) >= (c+1)/2)
+//@ ensures [C20.bcdplus-consumed] result2 == nil ==> result1 == (c+1)/2
+//@ ensures [C20.bcdplus-chars] result2 == nil ==> len(result0) == c && forall(qk, 0, c, result0[qk] == specBCDPlusChar(b[qk/2], qk))
 
 //@ func decodePacked6BitAscii
 //@ props C20 C05 C07
 //@ assigns nothing
 //@ requires [str.c] 0 <= c && c <= 31
-//@ ensures [C20.packed-consumed] result2 == nil ==> result1 == (c*6+7)/8 && result1 <= len(b)
-//@ ensures [C20.packed-reject] len(b) < (c*6+7)/8 ==> result2 != nil
+//@ invariant 0 [C20.packed-inv] 0 <= i && i <= c && len(runes) == c && forall(qk, 0, i, runes[qk] == rune(specPacked6Char(b, qk)))
+//@ ensures [C20.packed-accept] (result2 == nil) == (len(b) >= (c*6+7)/8)
+//@ ensures [C20.packed-consumed] result2 == nil ==> result1 == (c*6+7)/8
+//@ ensures [C20.packed-chars] result2 == nil ==> len(result0) == c && forall(qk, 0, c, result0[qk] == specPacked6Char(b, qk))
